@@ -19,7 +19,7 @@ LEVEL = 'model_checking'
 PRELOAD = ['frame.geometry.geometry', 'frame.netlist.netlist', 'frame.die.die', 'frame.allocation.allocation', 'ruamel.yaml', 'mc.common', 'tools.spectral.spectral']
 RULE = ("environment-answer enumeration: every sequence of answers of the random source (menu {0.13, 0.88}, 3 answers {0.13, 0.52, 0.88} in thorough, each "
         "shifted by a distinct per-draw offset) for the 2*m draws of a trial with m movable modules x netlist topologies {path, cycle, star, clique, 3-pin "
-        "hyperedge + edges} on 4-5 modules x masses {equal, unequal} x {no fixed, one fixed, one small / one large hard two-rectangle module, fixed terminals on the die edges} x dies {6x4, 4x4, 10x3, 2.4e9x1.6e9} x trials {1, 2}; a soft module carrying a rectangle much smaller than its area; 0 trials from given (also aligned) centres. "
+        "hyperedge + edges} on 4-5 modules x masses {equal, unequal} x {no fixed, one fixed, one small / one large hard two-rectangle module, fixed terminals on the die edges} x dies {6x4, 4x4, 10x3, 2.4e9x1.6e9} x trials {1, 2}; a soft module carrying a rectangle much smaller than its area; 0 trials from given (also aligned, slanted-regular and 2x2-grid) centres with equal and unequal masses; modules tied only to one fixed pad on the die edge. "
         "states = distinct (configuration, answer sequence) executions; transitions = draws answered.")
 ASSUMPTIONS = ["the menu fixes on which side and in which order modules start, which determines the eigenvector the power iteration converges to; "
                "two draws never coincide (probability-0 events for a real stream)",
